@@ -18,7 +18,8 @@ MANIFEST = {
     "jsrt": True,
 }
 
-THEOREMS = ["C04_render_if_first_truthy", "C04_render_else", "C04_render_for_array", "C04_render_attrs_one_per_attribute"]
+THEOREMS = ["C04_render_if_first_truthy", "C04_render_else", "C04_render_for_array", "C04_render_attrs_one_per_attribute",
+            "C04_route_camel_families", "C04_route_verbatim_families", "C04_route_events", "C04_route_data_hyphen", "C04_route_plain"]
 
 
 def norm(nodes):
@@ -49,6 +50,53 @@ def norm(nodes):
             n["ch"] = norm(n["ch"])
         out.append(n)
     return out
+
+
+def observe_route(tree):
+    """the delivery key(s) recorded by the reference runtime for the single attribute of <c><EL attr/></c>"""
+    c = tree[0]
+    n = c["ch"][0]
+    keys = []
+    for k, v in n.get("attrs", []):
+        if k.startswith("r:") and v.get("model") is not None:
+            k = "r!:" + k[2:]
+        if k.startswith("v:"):
+            parts = k.split(":")
+            k = "v:%s:%d%d%d" % (":".join(parts[1:-1]), bool(v.get("final")), bool(v.get("mutated")), bool(v.get("capture")))
+        keys.append(k)
+    for g in n.get("generics", {}) or {}:
+        keys.append("g:" + g)
+    if n.get("slot") is not None:
+        keys.append("slot")
+    if n.get("k") == "slot" and n.get("name"):
+        keys.append("slotname")
+    for x in c.get("svn") or []:
+        keys.append("sref:" + x)
+    return keys
+
+
+def attr_routes(res):
+    p = harness_run(["attrroute", res.tier, res.seed], timeout=3000)
+    jobs = [json.loads(l) for l in p.stdout.decode("utf8").split("\n") if l]
+    model = modelrun(["attr_route\t%s\t%s" % (j["el"], enc(j["raw"])) for j in jobs])
+    data = {"$o": {"a": "A", "f": {"$fn": "ff"}}}
+    out = node_jobs([{"op": "run", "id": k, "bundle": j["bundle"], "path": "p", "slotValues": {"$o": {}},
+                      "steps": [{"create": data}]} for k, j in enumerate(jobs)], shards=8)
+    found = 0
+    for j, m, o in zip(jobs, model, out):
+        if m.startswith(("ERR", "EXC")):
+            raise Infra("attr_route model failed: %s" % m)
+        exp = [dec(m[1:])] if m.startswith("S") else []
+        if o.get("error"):
+            got = ["throws: " + o["error"][:100]]
+        else:
+            got = observe_route(o["trees"][0])
+        if got != exp:
+            found += 1
+            if found <= 6:
+                res.violation("attribute %r on <%s> reaches the runtime as %s, the attribute-family model says %s (diagnostics: %s)" % (
+                    j["raw"], j["el"], got or "nothing", exp or "nothing", j["diags"]), {"src": j["src"], "observed": got, "model": exp})
+    return len(jobs), found
 
 
 def run(res):
@@ -96,9 +144,12 @@ def run(res):
                 res.violation("created tree differs from the WXML specification near: generated ...%s | specification ...%s (template %s)" % (
                     a[max(0, i - 80):i + 80], b[max(0, i - 80):i + 80], j["src"][:200]),
                     {"src": j["src"], "data": j["data"], "slotValues": j["slotValues"], "generated_tree": got, "spec_tree": spec})
+    n_route, f_route = attr_routes(res)
+    found += f_route
     if not ok:
         res.violation(what, {"obligation": "Properties/C04.v"}, no_input=(found == 0))
-    res.cov["evaluations"] = len(jobs_in)
+    res.notes["attribute_route_cases"] = n_route
+    res.cov["evaluations"] = len(jobs_in) + n_route
     res.cov["distinct_nontrivial"] = nontrivial
     res.cov["rule"] = ("generated templates (every element kind and attribute family, quote styles, self-closing vs paired, entities, "
                        "whitespace, comments between if-branches) x 2 integer/string/array/object data environments; compared = the "
